@@ -256,6 +256,7 @@ func TestVerifHostConc(t *testing.T) {
 		return fmt.Sprintf("v9k%dr%d", k, r), (k + 2*r) % 3, modes
 	}
 	results := make(map[string][2]string)
+	inputs := make(map[string]string)
 	var rmu sync.Mutex
 	for r := 1; r <= rounds; r++ {
 		var start, done sync.WaitGroup
@@ -266,12 +267,21 @@ func TestVerifHostConc(t *testing.T) {
 				defer done.Done()
 				tag, w, modes := plan(k, r)
 				var res [2]string
+				input := make([]*schema.Message, 1, 4) // the caller's own slice, with spare capacity
+				input[0] = schema.UserMessage(fmt.Sprintf("q|%s|%d", tag, w))
 				start.Wait()
 				for ci, mode := range modes {
 					ctx := context.WithValue(ctx0, vhKey{}, tag+"#"+mode)
-					res[ci] = vhCall(ctx, ma, mode, []*schema.Message{schema.UserMessage(fmt.Sprintf("q|%s|%d", tag, w))})
+					res[ci] = vhCall(ctx, ma, mode, input)
+				}
+				beyond := []map[string]any{}
+				for _, m := range input[1:cap(input)] {
+					if m != nil {
+						beyond = append(beyond, vhRender(m))
+					}
 				}
 				rmu.Lock()
+				inputs[tag] = vhLine("input", "first", vhRender(input[0]), "beyond", beyond, "len", len(input), "cap", cap(input))
 				results[tag] = res
 				rmu.Unlock()
 			}(k, r)
@@ -284,19 +294,19 @@ func TestVerifHostConc(t *testing.T) {
 	for r := 1; r <= rounds; r++ {
 		for k := 1; k <= callers; k++ {
 			tag, w, modes := plan(k, r)
-			lines = append(lines, vhLine("case", "id", "host/"+tag, "agent", "host", "variant", "host", "tag", tag, "n", 0, "d", 0, "w", w,
+			lines = append(lines, vhLine("case", "id", "host/"+tag, "agent", "host", "variant", "host", "tag", tag, "user", fmt.Sprintf("q|%s|%d", tag, w), "n", 0, "d", 0, "w", w,
 				"modifier", false, "rd", false, "callers", callers))
 			for ci, mode := range modes {
 				lines = append(lines, vhLine("call", "mode", mode))
 				lines = append(lines, rec.events[tag+"#"+mode]...)
 				lines = append(lines, results[tag][ci], vhLine("endcall"))
 			}
-			lines = append(lines, vhLine("end"))
+			lines = append(lines, inputs[tag], vhLine("end"))
 			ncases++
 		}
 	}
 	if len(rec.orphan) > 0 {
-		lines = append(lines, vhLine("case", "id", "host/orphans", "agent", "host", "variant", "host", "tag", "", "n", 0, "d", 0, "w", 0,
+		lines = append(lines, vhLine("case", "id", "host/orphans", "agent", "host", "variant", "host", "tag", "", "user", "", "n", 0, "d", 0, "w", 0,
 			"modifier", false, "rd", false, "callers", callers))
 		for _, l := range rec.orphan {
 			lines = append(lines, vhLine("orphan", "line", l))
